@@ -48,6 +48,11 @@ checks.update({
              text='Exploration, exhaustive in the small: every receive/advance sequence up to length 5 (6 thorough) incl. handlers that start the next height while a cached batch is consumed, plus long random sequences; every handler call judged (own height/instance/sender, exactly once, arrival order, timing) and cached messages judged for loss.', ref='4/C17'),
 })
 
+checks.update({
+ 'C05': dict(engine='sim', technique='runtime monitor: bounded-progress and completeness oracle over a stabilised tail (virtual doubling timers, zero-latency delivery) appended to random adversarial prefixes',
+             text='Exploration of a restated (view-bounded) liveness: after a random adversarial prefix the scheduler delivers every in-flight message before the next virtual timer (base*2^view) expires; judged: a correct node commits before any correct node exceeds view vmax+2n+2, and every correct acceptor of a post-stabilisation committing view (joined by correct quorum weight) commits. Unbounded "eventually" is out of reach of runtime monitoring; this is the bounded form.', ref='4/C05'),
+})
+
 def cmd(pid, tier):
     return "./check %s --tier %s" % (pid, tier)
 
